@@ -20,6 +20,7 @@ mod node_oracles;
 mod node_rig;
 mod plan;
 mod rng;
+mod settable;
 mod stubs;
 mod vals;
 mod worlds;
